@@ -660,8 +660,14 @@ def _save_composite_subset_state(state, context):
 @loader(CompositeSubsetState)
 def _load_composite_subset_state(rec, context):
     cls = lookup_class_with_patches(rec['_type'])
-    result = cls(context.object(rec['state1']),
-                 context.object(rec['state2']))
+    state1 = context.object(rec['state1'])
+    state2 = context.object(rec['state2'])
+    result = cls(state1, state2)
+    # The constructor copies its arguments, but some states (SliceSubsetState)
+    # are only completed later by a callback on the object that was loaded, so
+    # we need to keep that object rather than the copy.
+    result.state1 = state1
+    result.state2 = state2
     return result
 
 
